@@ -752,10 +752,11 @@ fn confirm_and_shrink(engine: &dyn Engine, f: Failure) -> Result<Failure, String
         ));
     };
     let mut evals = 0;
+    let shrink_deadline = Instant::now() + Duration::from_secs(8);
     'outer: loop {
         for cand in engine.shrink(&cur.case, &cur.clause) {
             evals += 1;
-            if evals > MAX_SHRINK_EVALS {
+            if evals > MAX_SHRINK_EVALS || Instant::now() >= shrink_deadline {
                 break 'outer;
             }
             if let Some(g) = engine.eval_case(&cand).into_iter().find(|g| g.clause == cur.clause) {
